@@ -7,7 +7,7 @@ using namespace vk;
 static bool safech(unsigned char c) { return isalnum(c) || strchr(".@%+/=:-[]", c) != nullptr; }
 static std::string ns(const std::string &s) { return std::to_string(s.size()) + ":" + s + ","; }
 
-struct Case { std::string name, daemon, input; std::map<std::string, std::string> env; std::string sender; std::vector<std::string> rcpts; std::string body; bool wellformed = true; int qstatus = 0; std::string qtext; bool qcrash = false;
+struct Case { std::string name, daemon, input; std::map<std::string, std::string> env; std::string sender; std::vector<std::string> rcpts; std::string body, body2; bool has_body2 = false; bool wellformed = true; int qstatus = 0; std::string qtext; bool qcrash = false;
               std::vector<std::string> bodies; std::vector<int> expect_multi; /* per message: 0 ack, 5 permanent */ int expect_class = 0; /* 0 success, 4 temporary, 5 permanent, -1 protocol violation (no acknowledgement at all) */ int databytes = 0; bool realqueue = false; bool cut = false; };
 
 static std::string smtp_session(const std::string &helo, const std::string &sender, const std::vector<std::string> &rc, const std::string &body_lf, bool quit = true) {
@@ -60,6 +60,26 @@ static std::vector<Case> make_cases(const Config &cfg) {
       // one failing call (fork, pipe, exec, wait, read, write) or short read anywhere in the daemon or in its child before the exec
       Case c = base(d); c.name = std::string(d) + " with one failing call"; c.expect_class = 40; v.push_back(c);
       Case r = base(d); r.name = std::string(d) + " with one failing call, real qmail-queue"; r.realqueue = true; r.expect_class = 40; v.push_back(r);
+    } else if (fam == "payload") {
+      // C05 at program level: every DATA payload over {CR, LF, '.', 'a'} up to the length bound (followed by CRLF.CRLF) through the real
+      // qmail-smtpd process; reference = RFC 5321 4.5.2 receiver (lines end at CRLF only; a bare LF refuses the session)
+      if (std::string(d) != "smtpd") continue;
+      int maxl = cfg.geti("maxlen", 5); const char al[] = {'\r', '\n', '.', 'a'};
+      for (int n = 0; n <= maxl; n++) { std::vector<int> idx(n, 0); for (;;) {
+          std::string pl; for (int i = 0; i < n; i++) pl += al[idx[i]];
+          Case c = base(d); c.rcpts = {"r1@a.example"}; c.name = "smtpd payload [" + esc(pl) + "]";
+          std::string stream = pl + "\r\n.\r\nQUIT\r\n"; c.input = "HELO x\r\nMAIL FROM:<" + c.sender + ">\r\nRCPT TO:<r1@a.example>\r\nDATA\r\n" + stream;
+          // reference decode
+          { size_t i = 0; std::string o, o2; bool amb = false; int status = -1;
+            for (;;) { size_t j = i; bool barelf = false, eof = false; for (;;) { if (j >= stream.size()) { eof = true; break; } if (stream[j] == '\n') { if (j > i && stream[j - 1] == '\r') break; barelf = true; break; } j++; }
+              if (eof) { status = 2; break; } if (barelf) { status = 1; break; }
+              std::string l = stream.substr(i, j - 1 - i);
+              if (l == ".") { status = 0; break; }
+              if (!l.empty() && l[0] == '.') { if (l.size() >= 2 && l[1] == '\r') { amb = true; o2 += l; } else o2 += l.substr(1); o += l.substr(1); } else { o += l; o2 += l; }
+              o += "\n"; o2 += "\n"; i = j + 1; }
+            if (status == 0) { c.body = o; c.body2 = o2; c.has_body2 = amb; c.expect_class = 0; } else { c.body = ""; c.expect_class = 4; c.wellformed = false; } }
+          v.push_back(c);
+          int i = n - 1; while (i >= 0 && ++idx[i] == 4) { idx[i] = 0; i--; } if (i < 0) break; } }
     } else if (fam == "multi") {
       // several messages on one QMTP connection with a size limit: the limit applies to each message separately
       if (std::string(d) != "qmtpd") continue;
@@ -186,7 +206,7 @@ struct C07 : Scenario {
     if (committed) {
       std::string why; size_t rl = received_ok(qmsg, proto, &why);
       if (!rl) { w.soft_violation(key + ":received", c->name + ": the Received field of the queued message " + why); return; }
-      if (qmsg.substr(rl) != c->body) { w.soft_violation(key, c->name + ": queued body differs from the transmitted message: [" + esc(qmsg.substr(rl), 100) + "] vs [" + esc(c->body, 100) + "]"); return; }
+      if (qmsg.substr(rl) != c->body && !(c->has_body2 && qmsg.substr(rl) == c->body2)) { w.soft_violation(key, c->name + ": queued body differs from the transmitted message: [" + esc(qmsg.substr(rl), 100) + "] vs [" + esc(c->body, 100) + "]"); return; }
       std::string env = "F" + c->sender + std::string(1, '\0'); for (auto &r : c->rcpts) env += "T" + r + std::string(1, '\0'); env += std::string(1, '\0');
       if (qenv != env) { w.soft_violation(key, c->name + ": queued envelope [" + esc(qenv, 160) + "] differs from the acknowledged one [" + esc(env, 160) + "]"); return; }
       w.counters["commits_verified"]++;
